@@ -370,6 +370,10 @@ func vfRunFutures(nAskers, nResp int, asks []vfAskSpec, kills map[int]time.Durat
 		fw.fmu.Unlock()
 		r.f.Close(fw.errClosed)
 	}
+	// waiters released by that Close may sit in an injected (virtual) delay: let virtual time pass before quiescing,
+	// otherwise the bubble ends with a goroutine still sleeping in the injected delay (harness artefact, §8)
+	w.wait()
+	time.Sleep(time.Millisecond)
 	w.wait()
 	log := w.snapshot()
 	fw.fmu.Lock()
